@@ -618,13 +618,28 @@ func vfSameBits(fr *frame, a []value) value {
 	if !xs && !ys {
 		return math.Float64bits(x.(float64)) == math.Float64bits(y.(float64))
 	}
-	bx := symFloat64bits(fr, []value{x})
-	by := symFloat64bits(fr, []value{y})
-	if sx, ok := bx.(sym); ok && sx.k == skReal {
+	isBits := func(v value) bool {
+		s, ok := v.(sym)
+		if !ok {
+			return true
+		}
+		return s.k == skFP && strings.HasPrefix(s.t, "((_ to_fp 11 53) ") && !strings.Contains(s.t[17:], " ")
+	}
+	if sx, ok := x.(sym); ok && sx.k == skReal {
 		return binopS(fr, token.EQL, types.Typ[types.Float64], x, y)
 	}
-	_ = pc
-	return binopS(fr, token.EQL, types.Typ[types.Uint64], bx, by)
+	if sy, ok := y.(sym); ok && sy.k == skReal {
+		return binopS(fr, token.EQL, types.Typ[types.Float64], x, y)
+	}
+	if isBits(x) && isBits(y) {
+		bx := symFloat64bits(fr, []value{x})
+		by := symFloat64bits(fr, []value{y})
+		return binopS(fr, token.EQL, types.Typ[types.Uint64], bx, by)
+	}
+	// values that went through IEEE operations: SMT-LIB identity on FloatingPoint
+	// (distinguishes +0/-0, identifies all NaNs: bit-equality up to the NaN payload)
+	pc.stats.Assumptions["bit-equality of values produced by float operations is decided up to the NaN payload (SMT-LIB has a single NaN)"] = true
+	return mkBool(pc, "(= "+termOf(x, skFP)+" "+termOf(y, skFP)+")")
 }
 
 // vfUFn(name string, args ...float64) float64: uninterpreted function application.
@@ -707,7 +722,7 @@ func symFloat64frombits(fr *frame, a []value) value {
 	case uint64:
 		return math.Float64frombits(x)
 	case sym:
-		return sym{k: skFP, bk: types.Float64, t: "((_ to_fp 11 53) " + fr.i.pc.def(bvSort(64), x.t) + ")"}
+		return sym{k: skFP, bk: types.Float64, t: "((_ to_fp 11 53) " + fr.i.pc.defAtom(bvSort(64), x.t) + ")"}
 	}
 	panic(unsupported{"Float64frombits"})
 }
